@@ -20,6 +20,7 @@ VARIABLE l
 Verdict0(e, i) ==
     CASE e.e = "OvBin" -> JudgeOvBin(e, i)
       [] e.e = "OvUn" -> JudgeOvUn(e, i)
+      [] e.e = "OvInc" -> JudgeOvInc(e, i)
       [] e.e = "OvConvInt" -> JudgeOvConvInt(e, i)
       [] e.e = "OvConvF" -> JudgeOvConvF(e, i)
       [] e.e = "ScBin" -> JudgeScBin(e, i)
@@ -35,6 +36,7 @@ Verdict0(e, i) ==
       [] e.e = "ElLimits" -> JudgeElLimits(e, i)
       [] e.e = "BitsU" -> JudgeBitsU(e, i)
       [] e.e = "BitsS" -> JudgeBitsS(e, i)
+      [] e.e = "BitsW" -> JudgeBitsW(e, i)
       [] e.e = "Rot" -> JudgeRot(e, i)
       [] e.e = "Sqrt" -> JudgeSqrt(e, i)
       [] e.e = "FrBin" -> JudgeFrBin(e, i)
